@@ -7,4 +7,5 @@ import LyModel.Props.C10
 #print axioms LyModel.Props.C10.yang_text_roundtrip_fails_F50
 #print axioms LyModel.Props.C10.yang_text_roundtrip_fails_F51
 #print axioms LyModel.Props.C10.stmt_tree_roundtrip
+#print axioms LyModel.Props.C10.stmt_tree_roundtrip_input_fuel
 #print axioms LyModel.Props.C10.stmt_roundtrip
